@@ -21,6 +21,7 @@ type State struct {
 	seen  map[string]bool // facts already in path (by key)
 	hist  map[types.Object][]Value // every value assigned to a local on this path, in order
 	tmps  map[string]Value         // last value of every evaluated compound expression, by source text
+	allocs []SliceV                // slices made on this path (allocation model)
 }
 
 func newState() *State {
@@ -47,6 +48,7 @@ func (s *State) clone() *State {
 	}
 	n.scope = append([]types.Object(nil), s.scope...)
 	n.path = append([]*Term(nil), s.path...)
+	n.allocs = append([]SliceV(nil), s.allocs...)
 	return n
 }
 
@@ -506,6 +508,21 @@ func (c *FuncCtx) sliceFacts(st *State, s SliceV) {
 	c.setRange(s.Len, bigZero, maxLen)
 	c.setRange(s.Cap, bigZero, maxLen)
 	c.setRange(s.Addr, bigZero, maxAddr)
+	if entryDerived(s.Addr) {
+		st.assume(Le(Add(s.Addr, s.Cap), brk0))
+	}
+}
+
+// entryDerived: the term names storage reachable from the function's inputs (no fresh symbol,
+// which would come from a havoc, a callee result or an allocation).
+func entryDerived(t *Term) bool {
+	ok := true
+	t.walk(func(x *Term) {
+		if (x.Op == "var" || x.Op == "app") && strings.Contains(x.Name, "!") {
+			ok = false
+		}
+	})
+	return ok
 }
 
 // field returns (materialising lazily) a field of a symbolic struct.
